@@ -29,6 +29,7 @@ SEL_FIELDS = [
     ("path", "p"),
     ("record", "rec"),
     ("record[]", "recs"),
+    ("varint", "x__n"),     # a double underscore INSIDE a name is an ordinary field name (normalize_fieldname makes such)
 ]
 INNER_FIELDS = [("string", "s"), ("varint", "n"), ("string", "tag")]
 
@@ -60,6 +61,7 @@ def record_values(draw):
         "p": draw(st.sampled_from(["/tmp/x", "a/b", "/etc/passwd", ""])),
         "rec": draw(st.one_of(st.none(), inner_values())),
         "recs": draw(st.lists(inner_values(), max_size=2)),
+        "x__n": draw(_small),
         "name": draw(st.sampled_from(["sel/rec", "other/type"])),
         # an older / newer generation of the same record type: same name, different field set
         "variant": draw(st.sampled_from([None, None, None, "fewer", "more"])),
@@ -131,7 +133,7 @@ class G:
         if k == "lit":
             return str(self.i(0, 12))
         if k == "field":
-            return self.pick(["r.n", "r.m", "r.size"])
+            return self.pick(["r.n", "r.m", "r.size", "r.n", "r.m", "r.size", "r.x__n"])
         if k == "var":
             return self.pick(env["int"])
         if k == "nested":
